@@ -72,7 +72,9 @@ pub fn solver_cases(lm: &LinearModel, tags: &[String], stream: &str, variants: &
 
 pub fn show_model(lm: &LinearModel) -> String {
     let dom = lm.domain().iter().map(|(n, d)| format!("{}: {}", n, d.get_type())).collect::<Vec<_>>().join(", ");
-    format!("{} || {} || offset {}", lm.to_string().replace('\n', "; "), dom, lm.objective_offset())
+    // Display of an ill-formed model (lengths that do not match) may panic: fall back to the wire form
+    let text = std::panic::catch_unwind(|| lm.to_string()).unwrap_or_else(|_| sx::lin_model(lm));
+    format!("{} || {} || offset {}", text.replace('\n', "; "), dom, lm.objective_offset())
 }
 
 fn pairs(l: &[(String, f64)]) -> String { l.iter().map(|(n, v)| format!("({} {})", sx::q(n), gen_lp::num(*v))).collect::<Vec<_>>().join(" ") }
@@ -183,6 +185,24 @@ pub fn prefixed_names(r: &mut Rng) -> LinearModel {
     m
 }
 
+/// ill-formed models that only `LinearModel::new_from_parts` can build: every pre-check arm of the wrappers
+pub fn malformed(r: &mut Rng) -> (LinearModel, &'static str) {
+    use rooc::model_transformer::DomainVariable;
+    use rooc::{Comparison, LinearConstraint, OptimizationType, VariableType};
+    let (lm, _) = gen_lp::model(r, &LpCfg { doms: Doms::Continuous, max_rows: 3, ..LpCfg::default() });
+    let (mut obj, opt, off, mut rows, mut vars, mut dom) = lm.into_parts();
+    let kind = match r.below(6) {
+        0 => { obj.pop(); "objective-too-short" }
+        1 => { obj.push(1.0); "objective-too-long" }
+        2 => { rows.push(LinearConstraint::new(vec![1.0; vars.len() + 1], Comparison::LessOrEqual, 1.0)); "row-too-long" }
+        3 => { let c = if r.chance(1, 2) { Comparison::Less } else { Comparison::Greater }; rows.push(LinearConstraint::new(vec![1.0; vars.len()], c, 1.0)); "strict-row" }
+        4 => { vars.push("ghost".into()); obj.push(0.0); for row in rows.iter_mut() { row.ensure_size(vars.len()); } "variable-without-domain" }
+        _ => { dom.insert("extra".into(), DomainVariable::new(VariableType::Boolean, Default::default())); "domain-entry-without-variable" }
+    };
+    let _ = OptimizationType::Min;
+    (LinearModel::new_from_parts(obj, opt, off, rows, vars, dom), kind)
+}
+
 pub fn generate(seed: u64, n: usize, thorough: bool, _corpus: Option<&str>) -> Vec<Case> {
     let mut r = Rng::new(seed);
     let mut cases = vec![];
@@ -206,6 +226,13 @@ pub fn generate(seed: u64, n: usize, thorough: bool, _corpus: Option<&str>) -> V
         if i % 10 == 5 {
             let lm = prefixed_names(&mut r);
             solver_cases(&lm, &["prefixed-names".to_string()], "prefixed-names", &variants, &mut cases);
+        }
+        if i % 10 == 3 {
+            let (lm, kind) = malformed(&mut r);
+            let before = cases.len();
+            solver_cases(&lm, &["malformed".to_string(), format!("malformed-{}", kind)], "malformed", &variants, &mut cases);
+            // a panic on an ill-formed model (C08's territory) is recorded in the distribution, not as a C04 violation
+            for c in cases[before..].iter_mut() { c.impl_violation = None; c.sig = None; }
         }
         if i % 10 == 0 {
             let lm = variable_free(&mut r);
